@@ -366,6 +366,33 @@ def run_history(w, case, res, log, prop, twin_factory=None):
                     break
                 if op["op"] in ("begin_session", "run_step", "rest_run", "add_scenario"):
                     changed = True
+                if op["op"] == "run_step" and w.step_outputs and isinstance(w.step_outputs[-1], dict) and "msg" not in w.step_outputs[-1]:
+                    # the step results of a session are results of the scenario too: with its declared settings (no step-level
+                    # settings so far) they equal the freshly built model at that time
+                    out = w.step_outputs[-1]
+                    for key in sorted(w.session):
+                        sh = w.shadow.get(key)
+                        if sh is None or sh["tainted"]:
+                            continue
+                        node = out.get(key[0], {}).get(key[1])
+                        if not isinstance(node, dict):
+                            continue
+                        fresh = w.fresh_for(key)
+                        for el, tv in node.items():
+                            for t, v in tv.items():
+                                try:
+                                    fv = fresh.evaluate_equation(el, float(t)) if hasattr(fresh, "evaluate_equation") else fresh.equation(el, float(t))
+                                except Exception:
+                                    continue
+                                if not T.close(v, fv, 1e-12):
+                                    res.violate(prop + ".scenario-differs-from-fresh-model", {"scenario": list(key), "element": el, "t": float(t), "got": v,
+                                                                                            "fresh": fv, "via": "session run_step", "op_index": n,
+                                                                                            "settings": {"constants": sh["constants"], "points": sh["points"]}})
+                                    break
+                            if res.violations:
+                                break
+                        if res.violations:
+                            break
                 if res.violations or not observe_all(n, touched):
                     break
         if getattr(w, "session", None):
